@@ -3,7 +3,7 @@
 Fault enumeration: a generated check_sw(uint256 x) is a k-way switch whose arms are
 {success, plain revert, Panic(1), vm.assert failure, stuck (unsupported opcode)}; the solver is replaced
 by a scripted stub (lib/stubsolver.sh) that answers each query file with one of
-{sat+model, sat+abstract model, unsat, unsat+error line+exit 1, unknown, timeout, garbage, empty output,
+{sat+model, sat+abstract model, unsat, unsat+error line+exit 1, unsat with an empty core, unknown, timeout, garbage, empty output,
 non-zero exit, killed by signal} after a scripted delay.  TestResult.exitcode is compared with an
 independent precedence model of the property statement; the same scenario is repeated under permuted
 completion delays and with --early-exit / --cache-solver.  MainResult.exitcode is checked through
@@ -21,8 +21,8 @@ import report
 from report import Run, new_result, run_pool
 
 ARMS = ["S", "R", "P", "F", "K"]  # success, revert, panic, fail flag (vm.assert), stuck
-REPLIES = ["sat", "satabs", "unsat", "unsaterr", "unknown", "timeout", "garbage", "empty", "exit3", "kill"]
-CLASS = {"sat": "SAT", "satabs": "SAT", "unsat": "UNSAT", "unsaterr": "UNSAT", "unknown": "UNKNOWN", "timeout": "UNKNOWN", "garbage": "ERR", "empty": "ERR", "exit3": "ERR", "kill": "ERR"}
+REPLIES = ["sat", "satabs", "unsat", "unsaterr", "unsatnocore", "unknown", "timeout", "garbage", "empty", "exit3", "kill"]
+CLASS = {"sat": "SAT", "satabs": "SAT", "unsat": "UNSAT", "unsaterr": "UNSAT", "unsatnocore": "UNSAT", "unknown": "UNKNOWN", "timeout": "UNKNOWN", "garbage": "ERR", "empty": "ERR", "exit3": "ERR", "kill": "ERR"}
 STUB = os.path.join(report.VERIF, "lib", "stubsolver.sh")
 WORK = os.path.join(report.VERIF, ".work")
 
@@ -151,8 +151,11 @@ def scenario(arms, default_ok, replies, delays, flags, res, tag):
             open(os.path.join(spath, base + ".val"), "w").write(str(i + 1))
             if delays.get(i):
                 open(os.path.join(spath, base + ".delay"), "w").write(str(delays[i]))
-        ov = dict(solver_command=f"{STUB} {spath}", solver_timeout_assertion=1.5, solver_threads=max(1, len(need)))
+        has_to = any(r == "timeout" for r in replies.values())
+        ov = dict(solver_command=f"{STUB} {spath}", solver_timeout_assertion=1.5 if has_to else 6.0, solver_threads=max(1, len(need)))
         ov.update(flags)
+        if flags.get("solver_threads"):
+            ov["solver_threads"] = flags["solver_threads"]
         out = A.run(A.make_ctx(spec, overrides=ov))
         res["counters"]["evaluations"] += 1
         res["counters"]["scenarios"] += 1
@@ -285,7 +288,7 @@ def main():
         w = json.load(open(run.replay))["witness"]
         res = new_result()
         scenario(list(w["arms"]), w["default_ok"], {int(k): v for k, v in w["replies"].items()}, {int(k): float(v) for k, v in w.get("delays", {}).items()},
-                 {k: (v == "True") for k, v in w.get("flags", {}).items()}, res, "replay")
+                 {k: (1 if k == "solver_threads" else v == "True") for k, v in w.get("flags", {}).items()}, res, "replay")
         run.merge(res)
         run.finish()
     scen = []
@@ -308,15 +311,17 @@ def main():
         flags = {}
         if rng.random() < 0.4:
             flags["early_exit"] = True
-        if rng.random() < 0.4:
+        if rng.random() < 0.5:
             flags["cache_solver"] = True
+        if rng.random() < 0.35:
+            flags["solver_threads"] = 1  # queries are answered strictly one after the other (exploration order)
         scen.append((arms, replies, rng.random() < 0.75, flags, 3 if len(need) >= 2 else 1))
     rng.shuffle(scen)
     tasks = [("scen", scen[i : i + 8], run.seed) for i in range(0, len(scen), 8)]
     mains = [[["pass", "pass"]], [["pass"], ["fail"]], [["fail"], ["pass"]], [["pass", "stuck"]], [["revert"], ["pass"]], [["pass"], ["pass", "pass"]], [["pass", "fail", "pass"]], [["stuck"]]]
     tasks += [("main", [m], run.seed) for m in mains]
     cands = []
-    for item, status, value in report.pmap(worker, tasks, soft_timeout=900, nproc=10):
+    for item, status, value in report.pmap(worker, tasks, soft_timeout=900, nproc=8):
         if status == "ok":
             cands += value.pop("candidates", [])
             run.merge(value)
@@ -329,7 +334,7 @@ def main():
         run.count("mismatch_candidates")
         res = new_result()
         replies = {int(k): v for k, v in c["replies"].items()}
-        flags = {k: (v == "True") for k, v in c.get("flags", {}).items()}
+        flags = {k: (1 if k == "solver_threads" else v == "True") for k, v in c.get("flags", {}).items()}
         persists = 0
         for attempt in range(2):
             delays = {int(k): float(v) for k, v in c.get("delays", {}).items()} if attempt == 0 else {}
